@@ -629,7 +629,46 @@ class _ConstCond(ast.NodeTransformer):
             return ast.copy_location(ast.Constant(value=not n.operand.value), n)
         return n
 
+    @staticmethod
+    def _bool_ifexp(e):
+        # in a truth-value position: `False if C else Y` is `not C and Y`, `True if C else Y` is `C or Y`
+        if isinstance(e, ast.IfExp) and isinstance(e.body, ast.Constant) and isinstance(e.body.value, bool):
+            c = e.test
+            if e.body.value is False:
+                nc = ast.UnaryOp(op=ast.Not(), operand=c)
+                return ast.copy_location(ast.BoolOp(op=ast.And(), values=[nc, e.orelse]), e)
+            if isinstance(c, ast.Compare) or (isinstance(c, ast.UnaryOp) and isinstance(c.op, ast.Not)):
+                return ast.copy_location(ast.BoolOp(op=ast.Or(), values=[c, e.orelse]), e)
+        return e
+
+    @classmethod
+    def _truth(cls, e):
+        # e stands where only its truth value is used (an if / while / conditional-expression test, an operand of `not`): `not not Z` is Z,
+        # and the same holds for the operands of and / or there
+        e = cls._bool_ifexp(e)
+        if isinstance(e, ast.UnaryOp) and isinstance(e.op, ast.Not) and isinstance(e.operand, ast.UnaryOp) and isinstance(e.operand.op, ast.Not):
+            return cls._truth(e.operand.operand)
+        if isinstance(e, ast.BoolOp):
+            vals = []
+            for v in e.values:
+                v = cls._truth(v)
+                if isinstance(v, ast.BoolOp) and type(v.op) is type(e.op):
+                    vals.extend(v.values)
+                else:
+                    vals.append(v)
+            e.values = vals
+        return e
+
     def visit_BoolOp(self, n):
+        n.values = [self._bool_ifexp(v) for v in n.values]
+        flat = []
+        for v in n.values:
+            if isinstance(v, ast.BoolOp) and type(v.op) is type(n.op):
+                flat.extend(v.values)
+            else:
+                flat.append(v)
+        n.values = flat
+        ast.fix_missing_locations(n)
         self.generic_visit(n)
         is_and = isinstance(n.op, ast.And)
         vals = []
@@ -663,7 +702,14 @@ class _ConstCond(ast.NodeTransformer):
                 return ast.copy_location(ast.UnaryOp(op=ast.Not(), operand=n.test), n)
         return n
 
+    def visit_While(self, n):
+        n.test = self._truth(n.test)
+        ast.fix_missing_locations(n)
+        return self.generic_visit(n)
+
     def visit_If(self, n):
+        n.test = self._truth(n.test)
+        ast.fix_missing_locations(n)
         self.generic_visit(n)
         if isinstance(n.test, ast.Constant) and isinstance(n.test.value, bool):
             taken = n.body if n.test.value else n.orelse
@@ -863,6 +909,99 @@ def _return_accumulator(fd, log=None):
         log.append('# the last piece of the accumulator %s of %s is appended before the return' % (acc, fd.name))
 
 
+def _block_temp_rename(fd, log=None):
+    """`x = y` in a block, y a local all of whose occurrences are in the statements of that block before the copy, x not occurring in them:
+    the statements computed x under another name (`length = 0; for ..: length += 1; start = length`).  y is written as x, the copy dropped."""
+    if any(isinstance(n, (ast.FunctionDef, ast.AsyncFunctionDef, ast.Lambda, ast.Global, ast.Nonlocal)) for n in ast.walk(fd) if n is not fd):
+        return
+    params = {a_.arg for a_ in ast.walk(fd.args) if isinstance(a_, ast.arg)}
+    total = {}
+    for n in _walk_no_defs(fd.body):
+        if isinstance(n, ast.Name):
+            total[n.id] = total.get(n.id, 0) + 1
+
+    def escapes(nodes, in_loop=False):
+        # a jump that leaves these statements before their end: x would keep its old value on that path
+        for n in nodes:
+            if isinstance(n, (ast.Return, ast.Raise)):
+                return True
+            if isinstance(n, (ast.Break, ast.Continue)) and not in_loop:
+                return True
+            if isinstance(n, (ast.FunctionDef, ast.AsyncFunctionDef, ast.ClassDef, ast.Lambda)):
+                continue
+            inner = in_loop or isinstance(n, (ast.For, ast.While))
+            if isinstance(n, (ast.For, ast.While)):
+                if escapes(n.body, True) or escapes(n.orelse, in_loop):
+                    return True
+                continue
+            if escapes([c for c in ast.iter_child_nodes(n) if isinstance(c, (ast.stmt, ast.ExceptHandler))], inner):
+                return True
+        return False
+
+    def rewrite(stmts):
+        for k, st in enumerate(stmts):
+            for fld in ('body', 'orelse', 'finalbody'):
+                L = getattr(st, fld, None)
+                if isinstance(L, list) and L and isinstance(L[0], ast.stmt) and not isinstance(st, (ast.FunctionDef, ast.ClassDef)):
+                    if rewrite(L):
+                        return True
+            if isinstance(st, ast.Assign) and len(st.targets) == 1 and isinstance(st.targets[0], ast.Name) and isinstance(st.value, ast.Name) and \
+                    st.value.id != st.targets[0].id and st.value.id not in params and k > 0 and not escapes(stmts[:k]):
+                x, y = st.targets[0].id, st.value.id
+                before = [n for b in stmts[:k] for n in _walk_no_defs([b]) if isinstance(n, ast.Name)]
+                ny = sum(1 for n in before if n.id == y)
+                if ny and ny + 1 == total.get(y, 0) and not any(n.id == x for n in before) and \
+                        any(n.id == y and isinstance(n.ctx, ast.Store) for n in before):
+                    for j in range(k):
+                        stmts[j] = _Rename({y: x}).visit(stmts[j])
+                    del stmts[k]
+                    if log is not None:
+                        log.append('# %s, computed as %s and copied, written as %s from the start in %s' % (x, y, x, fd.name))
+                    return True
+        return False
+    for _ in range(6):
+        if not rewrite(fd.body):
+            break
+        total.clear()
+        for n in _walk_no_defs(fd.body):
+            if isinstance(n, ast.Name):
+                total[n.id] = total.get(n.id, 0) + 1
+
+
+def _append_temp(fd, log=None):
+    """`x = E` immediately followed by `L.append(x)` (L a plain name), x occurring nowhere else in the function but in such pairs: `L.append(E)`."""
+    pairs = []
+
+    def scan(stmts):
+        for i, st in enumerate(stmts):
+            for fld in ('body', 'orelse', 'finalbody'):
+                L = getattr(st, fld, None)
+                if isinstance(L, list) and L and isinstance(L[0], ast.stmt) and not isinstance(st, (ast.FunctionDef, ast.ClassDef)):
+                    scan(L)
+            if isinstance(st, ast.Try):
+                for h in st.handlers:
+                    scan(h.body)
+            nxt = stmts[i + 1] if i + 1 < len(stmts) else None
+            if isinstance(st, ast.Assign) and len(st.targets) == 1 and isinstance(st.targets[0], ast.Name) and isinstance(nxt, ast.Expr) and \
+                    isinstance(nxt.value, ast.Call) and isinstance(nxt.value.func, ast.Attribute) and nxt.value.func.attr == 'append' and \
+                    isinstance(nxt.value.func.value, ast.Name) and len(nxt.value.args) == 1 and not nxt.value.keywords and \
+                    isinstance(nxt.value.args[0], ast.Name) and nxt.value.args[0].id == st.targets[0].id and nxt.value.func.value.id != st.targets[0].id and \
+                    not any(isinstance(x, ast.Name) and x.id == st.targets[0].id for x in ast.walk(st.value)):
+                pairs.append((stmts, st, nxt))
+    scan(fd.body)
+    by_name = {}
+    for stmts, st, nxt in pairs:
+        by_name.setdefault(st.targets[0].id, []).append((stmts, st, nxt))
+    for x, ps in by_name.items():
+        if sum(1 for n in ast.walk(fd) if isinstance(n, ast.Name) and n.id == x) != 2 * len(ps):
+            continue
+        for stmts, st, nxt in ps:
+            nxt.value.args[0] = st.value
+            stmts.remove(st)
+        if log is not None:
+            log.append('# %s, bound only to be appended, written into the append in %s' % (x, fd.name))
+
+
 def _param_copy(fd, log=None):
     """`x = p` at the top level with p a parameter that is not read or bound anywhere after that statement, x not occurring before it: x is
     the parameter under another name (`remaining = count` so that the argument is "not mutated").  x is written as p."""
@@ -872,16 +1011,23 @@ def _param_copy(fd, log=None):
         return
     for i, st in enumerate(list(fd.body)):
         if not (isinstance(st, ast.Assign) and len(st.targets) == 1 and isinstance(st.targets[0], ast.Name) and isinstance(st.value, ast.Name) and
-                st.value.id in params and st.targets[0].id not in params):
+                st.targets[0].id not in params):
             continue
+        if st.value.id not in params and st.value.id not in _stores(fd.body[:i]):
+            continue        # neither a parameter nor a local bound before: a global
         x, p_ = st.targets[0].id, st.value.id
         before = [n for b in fd.body[:i] for n in _walk_no_defs([b]) if isinstance(n, ast.Name) and n.id == x]
         after_p = [n for b in fd.body[i + 1:] for n in _walk_no_defs([b]) if isinstance(n, ast.Name) and n.id == p_]
-        if before or after_p:
+        if before:
             continue
+        if after_p:
+            # p is still used afterwards: x and p name the same object for the rest of the function when neither is bound again
+            later = _stores(fd.body[i + 1:])
+            if x in later or p_ in later:
+                continue
         fd.body = [_Rename({x: p_}).visit(b) for b in fd.body if b is not st]
         if log is not None:
-            log.append('# %s, a copy of the parameter %s that is not used again, written as %s in %s' % (x, p_, p_, fd.name))
+            log.append('# %s, a copy of the parameter / local %s that is not used again, written as %s in %s' % (x, p_, p_, fd.name))
         return _param_copy(fd, log)
 
 
@@ -1057,18 +1203,33 @@ def _expr_helper(h):
     if not body or not isinstance(body[-1], ast.Return) or body[-1].value is None:
         return None
     env = {}
+    guards = []
     for st in body[:-1]:
         if isinstance(st, ast.Assign) and len(st.targets) == 1 and isinstance(st.targets[0], ast.Name) and st.targets[0].id not in env \
-                and st.targets[0].id not in h.params:
+                and st.targets[0].id not in h.params and not guards:
             env[st.targets[0].id] = _subst(st.value, env)
-        elif isinstance(st, ast.AnnAssign) and isinstance(st.target, ast.Name) and st.value is not None and st.target.id not in env:
+        elif isinstance(st, ast.AnnAssign) and isinstance(st.target, ast.Name) and st.value is not None and st.target.id not in env and not guards:
             env[st.target.id] = _subst(st.value, env)
+        elif isinstance(st, ast.If) and not st.orelse and len(st.body) == 1 and isinstance(st.body[0], ast.Return) and st.body[0].value is not None and \
+                isinstance(st.body[0].value, ast.Constant) and isinstance(st.body[0].value.value, bool) and env is not None and \
+                all(_pure_read(v_) for v_ in env.values()):
+            # `if C: return <True / False>` before the final return (the locals so far are plain reads: evaluating them again changes nothing)
+            guards.append((st.test, st.body[0].value))
         else:
             return None
-    for n in ast.walk(body[-1].value):
+    for n in [x for g_ in guards for x in ast.walk(g_[0])] + list(ast.walk(body[-1].value)):
         if isinstance(n, (ast.Yield, ast.YieldFrom, ast.Await, ast.NamedExpr)):
             return None
-    return env, body[-1].value
+    expr = body[-1].value
+    for test, val in reversed(guards):
+        expr = ast.copy_location(ast.IfExp(test=test, body=val, orelse=expr), test)
+    return env, expr
+
+
+def _pure_read(e):
+    return all(isinstance(n, (ast.Name, ast.Attribute, ast.Subscript, ast.Slice, ast.Constant, ast.Load, ast.BinOp, ast.Add, ast.Sub, ast.UnaryOp, ast.USub, ast.Tuple)) or
+               (isinstance(n, ast.Call) and isinstance(n.func, ast.Name) and n.func.id == 'len' and len(n.args) == 1 and not n.keywords)
+               for n in ast.walk(e))
 
 
 def _contains_return(st):
@@ -1311,6 +1472,12 @@ class Inliner:
             stmt_calls = {id(n.value) for n in ast.walk(fd) if isinstance(n, (ast.Expr, ast.Return)) or (isinstance(n, ast.Assign) and len(n.targets) == 1)
                           if isinstance(getattr(n, 'value', None), ast.Call)}
             usable = _expr_helper(local_helpers[name]) is not None or (calls and all(id(c) in stmt_calls for c in calls))
+            if not usable and calls and any(isinstance(x, ast.Yield) for x in _walk_no_defs(local_helpers[name].fd.body)):
+                # a nested generator: usable when every call is looped over by a `for` statement or joined in a statement of its own
+                loop_iters = {id(n.iter) for n in ast.walk(fd) if isinstance(n, ast.For)}
+                joined = {id(n.value.args[0]) for n in ast.walk(fd) if isinstance(n, (ast.Assign, ast.Return)) and isinstance(getattr(n, 'value', None), ast.Call) and
+                          isinstance(n.value.func, ast.Attribute) and n.value.func.attr == 'join' and len(n.value.args) == 1 and not n.value.keywords}
+                usable = all(id(c) in loop_iters or id(c) in joined for c in calls)
             if len(uses) != len(calls) or not usable or _stores(fd.body).get(name, 0) > 1:
                 del local_helpers[name]
             else:
@@ -1382,6 +1549,29 @@ class Inliner:
                     if isinstance(L, list) and L and isinstance(L[0], ast.stmt) and not isinstance(st, (ast.FunctionDef, ast.ClassDef)):
                         join_of_generator(L)
                 v = getattr(st, 'value', None) if isinstance(st, (ast.Return, ast.Assign)) else None
+                if isinstance(v, ast.Call) and isinstance(v.func, ast.Attribute) and v.func.attr == 'join' and \
+                        (isinstance(v.func.value, ast.Name) or (isinstance(v.func.value, ast.Constant) and v.func.value.value != '')) and \
+                        len(v.args) == 1 and not v.keywords and isinstance(v.args[0], ast.Call):
+                    # SEP.join(gen(..)): the pieces collected in a list by a loop over the helper (inlined afterwards), joined at the end
+                    r = resolve(v.args[0])
+                    if r and not r[0].other_decorators and any(isinstance(x, ast.Yield) for x in _walk_no_defs(r[0].fd.body)) and \
+                            not any(isinstance(x, ast.YieldFrom) for x in _walk_no_defs(r[0].fd.body)):
+                        k = 1
+                        while 'acc_%d' % k in taken or 'part_%d' % k in taken:
+                            k += 1
+                        acc, part = 'acc_%d' % k, 'part_%d' % k
+                        taken.update((acc, part))
+                        init = ast.copy_location(ast.Assign(targets=[ast.Name(id=acc, ctx=ast.Store())], value=ast.List(elts=[], ctx=ast.Load()), type_comment=None), st)
+                        loop = ast.copy_location(ast.For(target=ast.Name(id=part, ctx=ast.Store()), iter=v.args[0], body=[
+                            ast.Expr(value=ast.Call(func=ast.Attribute(value=ast.Name(id=acc, ctx=ast.Load()), attr='append', ctx=ast.Load()),
+                                                    args=[ast.Name(id=part, ctx=ast.Load())], keywords=[]))], orelse=[], type_comment=None), st)
+                        v.args[0] = ast.copy_location(ast.Name(id=acc, ctx=ast.Load()), v)
+                        for x in (init, loop):
+                            ast.fix_missing_locations(x)
+                        stmts[i:i] = [init, loop]
+                        i += 2
+                        i += 1
+                        continue
                 if isinstance(v, ast.Call) and isinstance(v.func, ast.Attribute) and v.func.attr == 'join' and isinstance(v.func.value, ast.Constant) and \
                         v.func.value.value == '' and len(v.args) == 1 and not v.keywords and isinstance(v.args[0], ast.Call):
                     r = resolve(v.args[0])
@@ -1981,6 +2171,27 @@ class Inliner:
                         out = [ast.copy_location(ast.Assign(targets=[ast.Name(id=t_, ctx=ast.Store())], value=v_, type_comment=None), n)
                                for t_, v_ in zip(tg, vs) if getattr(v_, 'id', None) != t_]
                         return out or ast.copy_location(ast.Pass(), n)
+                # o.a, o.b = (x, y) with one root object o: o.a = x; o.b = y when the later values mention o only as `o.<attribute not stored earlier>`
+                if len(n.targets) == 1 and isinstance(n.targets[0], (ast.Tuple, ast.List)) and isinstance(n.value, (ast.Tuple, ast.List)) and \
+                        len(n.targets[0].elts) == len(n.value.elts) and len(n.value.elts) >= 2 and \
+                        all(isinstance(x, ast.Attribute) and isinstance(x.value, ast.Name) for x in n.targets[0].elts) and \
+                        len({x.value.id for x in n.targets[0].elts}) == 1 and len({x.attr for x in n.targets[0].elts}) == len(n.targets[0].elts) and \
+                        not any(isinstance(x, ast.Starred) for x in n.value.elts):
+                    root = n.targets[0].elts[0].value.id
+                    safe = True
+                    for i_, t_ in enumerate(n.targets[0].elts):
+                        earlier = {x.attr for x in n.targets[0].elts[:i_]}
+                        v_ = n.value.elts[i_]
+                        attr_roots = {id(a_.value) for a_ in ast.walk(v_) if isinstance(a_, ast.Attribute) and isinstance(a_.value, ast.Name) and
+                                      a_.value.id == root and a_.attr not in earlier and isinstance(a_.ctx, ast.Load)}
+                        if any(isinstance(x, ast.Name) and x.id == root and id(x) not in attr_roots for x in ast.walk(v_)):
+                            safe = False
+                        if any(isinstance(c_, ast.Call) and isinstance(c_.func, ast.Attribute) and isinstance(c_.func.value, ast.Name) and c_.func.value.id == root
+                               for c_ in ast.walk(v_)):
+                            safe = False
+                    if safe:
+                        return [ast.copy_location(ast.Assign(targets=[ast.Attribute(value=ast.Name(id=root, ctx=ast.Load()), attr=t_.attr, ctx=ast.Store())],
+                                                             value=v_, type_comment=None), n) for t_, v_ in zip(n.targets[0].elts, n.value.elts)]
                 return n
         def const_int(e):
             if isinstance(e, ast.Constant) and isinstance(e.value, int) and not isinstance(e.value, bool):
@@ -2060,10 +2271,28 @@ class Inliner:
             T().visit(tree)
             _ConstCond().visit(tree)
             ast.fix_missing_locations(tree)
+            # module tables: a module-level name bound once to a literal tuple of tuples of constants / dotted names (enum members): immutable, the same
+            # at every call
+            mod_tables = {}
+            mod_sto = {}
+            for x_ in ast.walk(tree):
+                if isinstance(x_, ast.Name) and isinstance(x_.ctx, (ast.Store, ast.Del)):
+                    mod_sto[x_.id] = mod_sto.get(x_.id, 0) + 1
+            for st_ in tree.body:
+                if isinstance(st_, ast.Assign) and len(st_.targets) == 1 and isinstance(st_.targets[0], ast.Name) and mod_sto.get(st_.targets[0].id) == 1 and \
+                        isinstance(st_.value, ast.Tuple) and 1 <= len(st_.value.elts) <= 8 and all(isinstance(e_, ast.Tuple) for e_ in st_.value.elts) and \
+                        all(isinstance(y_, (ast.Tuple, ast.Attribute, ast.Constant, ast.Name, ast.Load)) for e_ in st_.value.elts for y_ in ast.walk(e_)) and \
+                        all(isinstance(y_.value, (ast.Name, ast.Attribute)) for e_ in st_.value.elts for y_ in ast.walk(e_) if isinstance(y_, ast.Attribute)) and \
+                        all(isinstance(z_, (ast.Attribute, ast.Constant)) for e_ in st_.value.elts for z_ in e_.elts):
+                    mod_tables[st_.targets[0].id] = st_.value
             for fd in [n for n in ast.walk(tree) if isinstance(n, ast.FunctionDef)]:
                 # local tables: a name assigned once, a literal tuple / list of tuples, only ever iterated
                 tables.clear()
                 sto = _stores(fd.body)
+                params_ = {a_.arg for a_ in ast.walk(fd.args) if isinstance(a_, ast.arg)}
+                for nm_, v_ in mod_tables.items():
+                    if nm_ not in sto and nm_ not in params_:
+                        tables[nm_] = v_
                 for n in _walk_no_defs(fd.body):
                     if isinstance(n, ast.Assign) and len(n.targets) == 1 and isinstance(n.targets[0], ast.Name) and sto.get(n.targets[0].id) == 1 and \
                             isinstance(n.value, (ast.Tuple, ast.List)) and n.value.elts and all(isinstance(e_, (ast.Tuple, ast.List)) for e_ in n.value.elts):
@@ -2092,6 +2321,8 @@ class Inliner:
                 _guard_return(fd, self.log)
                 _thread_flag(fd, self.log)
                 _param_copy(fd, self.log)
+                _append_temp(fd, self.log)
+                _block_temp_rename(fd, self.log)
                 _const_str_locals(fd, self.log)
                 _scalarise_list_local(fd, self.log)
                 _hoisted_locals(fd, self.log)
